@@ -5,13 +5,14 @@ package main
 import (
 	"fmt"
 	"go/ast"
+	"go/printer"
 	"go/token"
 	"strings"
 
 	. "vh/vhlib"
 )
 
-var gens = map[string]GenFn{"SrcTokens": genSrcTokens, "HealthOps": genHealthOps}
+var gens = map[string]GenFn{"SrcTokens": genSrcTokens, "HealthOps": genHealthOps, "LBTokens": genLBTokens}
 
 // genSrcTokens: literal tokens / constants at named sites.
 //
@@ -300,4 +301,84 @@ func healthShape(fd *ast.FuncDecl, set bool) string {
 		return "ShLoadStore"
 	}
 	return ""
+}
+
+// ---------------------------------------------------------------------------
+// genLBTokens: does the "power of `choice` picks" fallback of the least-request / least-connection balancers
+// test Health()?  The text of the two functions (comments dropped, gofmt layout) is compared with the two
+// known shapes: the loop as it was (no health test) and the repaired loop (skip unhealthy samples, then
+// firstHealthyHost from a random position).  Any other text => LBTokens_translator_ok := false.
+func funcText(repo, rel, recv, name string) (string, error) {
+	fset, f, err := ParseGoFile(repo, rel)
+	if err != nil {
+		return "", err
+	}
+	fd := FindFunc(f, recv, name)
+	if fd == nil {
+		return "", nil
+	}
+	var sb strings.Builder
+	if err := printer.Fprint(&sb, fset, fd.Body); err != nil {
+		return "", err
+	}
+	return sb.String(), nil
+}
+
+func leastLoopText(aware bool, stat string) string {
+	s := "{\n\ths := lb.hosts\n\ttotal := hs.Size()\n\tlb.mutex.Lock()\n\tdefer lb.mutex.Unlock()\n\tvar candidate types.Host\n\n\tfor cur := 0; cur < int(lb.choice); cur++ {\n\n\t\trandIdx := lb.rand.Intn(total)\n\t\ttempHost := hs.Get(randIdx)\n"
+	if aware {
+		s += "\t\tif !tempHost.Health() {\n\t\t\tcontinue\n\t\t}\n"
+	}
+	s += "\t\tif candidate == nil {\n\t\t\tcandidate = tempHost\n\t\t\tcontinue\n\t\t}\n\t\tif candidate.HostStats()." + stat + ".Count() > tempHost.HostStats()." + stat + ".Count() {\n\t\t\tcandidate = tempHost\n\t\t}\n\t}\n"
+	if aware {
+		s += "\tif candidate == nil {\n\n\t\tcandidate = firstHealthyHost(hs, lb.rand.Intn(total))\n\t}\n"
+	}
+	s += "\treturn candidate\n\n}"
+	return s
+}
+
+const firstHealthyHostText = "{\n\ttotal := hs.Size()\n\tfor i := 0; i < total; i++ {\n\t\thost := hs.Get((start + i) % total)\n\t\tif host.Health() {\n\t\t\treturn host\n\t\t}\n\t}\n\treturn nil\n}"
+
+func normText(s string) string {
+	// drop blank lines (the printer keeps the blank lines left by dropped comments)
+	var out []string
+	for _, l := range strings.Split(s, "\n") {
+		if strings.TrimSpace(l) != "" {
+			out = append(out, l)
+		}
+	}
+	return strings.Join(out, "\n")
+}
+
+func genLBTokens(repo string) (string, error) {
+	var b strings.Builder
+	ok := true
+	fh, err := funcText(repo, "pkg/upstream/cluster/loadbalancer.go", "", "firstHealthyHost")
+	if err != nil {
+		return "", err
+	}
+	for _, it := range []struct{ file, recv, stat, def string }{
+		{"pkg/upstream/cluster/loadbalancer.go", "leastActiveRequestLoadBalancer", "UpstreamRequestActive", "lr_fallback_aware"},
+		{"pkg/upstream/cluster/lb_leastconnection.go", "leastActiveConnectionLoadBalancer", "UpstreamConnectionActive", "lc_fallback_aware"},
+	} {
+		txt, err := funcText(repo, it.file, it.recv, "unweightChooseHost")
+		if err != nil {
+			return "", err
+		}
+		switch normText(txt) {
+		case normText(leastLoopText(false, it.stat)):
+			fmt.Fprintf(&b, "Definition %s := false.\n", it.def)
+		case normText(leastLoopText(true, it.stat)):
+			fmt.Fprintf(&b, "Definition %s := true.\n", it.def)
+			if normText(fh) != normText(firstHealthyHostText) {
+				ok = false
+				b.WriteString("(* firstHealthyHost: text not recognised *)\n")
+			}
+		default:
+			ok = false
+			fmt.Fprintf(&b, "(* %s.unweightChooseHost: text not recognised *)\nDefinition %s := false.\n", it.recv, it.def)
+		}
+	}
+	fmt.Fprintf(&b, "Definition LBTokens_translator_ok := %v.\n", ok)
+	return b.String(), nil
 }
